@@ -10,6 +10,27 @@ M3 = 'Model.C03'
 PARAMS = 's0 s1 M0 M1 dx efl wavelength fpm_dx shift0 shift1'
 
 
+def returned_field_name(fn, calls):
+    """the single local name that holds the field returned by the calls in `calls` (directly, as first element of an unpacked
+    tuple, or through one intermediate name: `pak = call(...)`, then `field, a, b = pak` / `field = pak`)"""
+    def first(t):
+        return t.id if isinstance(t, ast.Name) else (t.elts[0].id if isinstance(t, ast.Tuple) and isinstance(t.elts[0], ast.Name) else None)
+    direct = set()
+    for st in ast.walk(fn):
+        if isinstance(st, ast.Assign) and st.value in calls:
+            direct.add(first(st.targets[0]))
+    if None in direct or not direct:
+        raise Untranslatable('result of to_fpm_and_back is not bound to a name')
+    via = set()
+    for st in ast.walk(fn):
+        if isinstance(st, ast.Assign) and isinstance(st.value, ast.Name) and st.value.id in direct:
+            via.add(first(st.targets[0]))
+    names = via if via else direct
+    if None in names or len(names) != 1:
+        raise Untranslatable('result of to_fpm_and_back is not bound to one name')
+    return next(iter(names))
+
+
 def generate(repo):
     g = Gen('C05', imports=['PrysmVerif.Num', 'PrysmVerif.Model.C05'], header=HEADER)
     pr, _ = load(repo, 'prysm/propagation.py')
@@ -182,14 +203,7 @@ def generate(repo):
         if not calls:
             raise Untranslatable('babinet does not call self.to_fpm_and_back')
         ok = True
-        field_names = set()
-        for st in ast.walk(fn):
-            if isinstance(st, ast.Assign) and st.value in calls:
-                t = st.targets[0]
-                field_names.add(t.id if isinstance(t, ast.Name) else t.elts[0].id)
-        if len(field_names) != 1:
-            raise Untranslatable('result of to_fpm_and_back is not bound to one name')
-        field = field_names.pop()
+        field = returned_field_name(fn, calls)
         for c in calls:
             kw = {k.arg: k.value for k in c.keywords}
             m = kw.get('fpm')
@@ -237,14 +251,7 @@ def generate(repo):
         calls = find_calls(fn, 'self.to_fpm_and_back')
         if not calls:
             raise Untranslatable('babinet does not call self.to_fpm_and_back')
-        names = set()
-        for st in ast.walk(fn):
-            if isinstance(st, ast.Assign) and st.value in calls:
-                t = st.targets[0]
-                names.add(t.id if isinstance(t, ast.Name) else t.elts[0].id)
-        if len(names) != 1:
-            raise Untranslatable('result of to_fpm_and_back is not bound to one name')
-        field = names.pop()
+        field = returned_field_name(fn, calls)
         margs = set()
         for c in calls:
             kw = {k.arg: k.value for k in c.keywords}
